@@ -165,6 +165,14 @@ pub fn run_family(name: &str, thorough: bool) -> Vec<Value> {
             decoder_family(&mut p, "message.from_bytes_be", &f.blind, thorough, true);
             p.dec("modulus".into(), "message.from_bytes_be", &modulus_r(), &["noncanonical"]);
         }
+        "sig_complete" => { crate::props::sig_complete::<Sha>("sha256", &mut p.out, thorough); crate::props::sig_complete::<Shake>("shake256", &mut p.out, thorough); }
+        "sig_binding" => { crate::props::sig_binding::<Sha>("sha256", &mut p.out, thorough); crate::props::sig_binding::<Shake>("shake256", &mut p.out, thorough); crate::props::cross_suite(&mut p.out); }
+        "proof_complete" => { crate::props::proof_complete::<Sha>("sha256", &mut p.out, thorough); crate::props::proof_complete::<Shake>("shake256", &mut p.out, thorough); }
+        "proof_sound" => { crate::props::proof_sound::<Sha>("sha256", &mut p.out, thorough); crate::props::proof_sound::<Shake>("shake256", &mut p.out, thorough); crate::props::cross_suite(&mut p.out); }
+        "blind_complete" => { crate::props::blind_complete::<Sha>("sha256", &mut p.out, thorough); crate::props::blind_complete::<Shake>("shake256", &mut p.out, thorough); }
+        "blind_sound" => { crate::props::blind_sound::<Sha>("sha256", &mut p.out, thorough); crate::props::blind_sound::<Shake>("shake256", &mut p.out, thorough); }
+        "update_history" => { crate::props::update_history::<Sha>("sha256", &mut p.out, thorough); crate::props::update_history::<Shake>("shake256", &mut p.out, thorough); }
+        "fresh" => { crate::props::fresh::<Sha>("sha256", &mut p.out); crate::props::fresh::<Shake>("shake256", &mut p.out); }
         "consts" => {
             consts::run(&mut p.out);
         }
